@@ -39,8 +39,9 @@ type Runner struct {
 	lastRefused bool
 	// FamTags: properties the family is about; state-level oracles (view,
 	// probe, inapplicable, teardown, registry) are tagged with them too.
-	FamTags  []string
-	anyCodes []int32
+	FamTags   []string
+	RelayTags []string
+	anyCodes  []int32
 }
 
 type def struct{}
@@ -91,6 +92,7 @@ func (r *Runner) tags(oracle string) []string {
 		add("C04")
 	case "relay":
 		add("C02")
+		add(r.RelayTags...)
 	case "inapplicable", "view", "probe":
 		add("C01")
 		add(r.FamTags...)
